@@ -95,13 +95,15 @@ def payload_ok(ev, body):
 def redelivered(sim, t):
     """did some datagram reach the receiving side of this transfer more than once
     (duplicated by the network, or retransmitted because its ACK was lost)?"""
-    dst = "10.0.0.2" if t.kind == "put" else "10.0.0.1"
+    # either direction: a duplicated 2.31 Continue makes the sender send the next block
+    # twice (as two requests), which the receiving application sees as an overlap too
     seen = set()
     for ev in sim.log:
-        if ev["e"] == "rx" and ev["to"].startswith(dst):
-            if ev["b"] in seen:
+        if ev["e"] == "rx":
+            key = (ev["to"], ev["b"])
+            if key in seen:
                 return True
-            seen.add(ev["b"])
+            seen.add(key)
     return False
 
 
